@@ -361,3 +361,68 @@ pub fn record(args: &Args, s: &mut Summary) {
     s.extra.insert("events".into(), json!(out.len()));
     write_ndjson(trace, &out);
 }
+
+/// C06 on long random timing sections: decode(file) == decode(file minus the rejected lines)
+pub fn c06_relation(args: &Args, s: &mut Summary) {
+    let runs = args.opt_usize("runs", 60);
+    let nlines = args.opt_usize("lines", 60);
+    let mut rng = Rng::new(args.seed);
+    let tm = Tau;
+    for run in 0..runs {
+        let g = json!({"mode": *rng.pick(&["osu", "taiko", "catch", "mania"]), "bank": *rng.pick(&[0, 2]), "vol": *rng.pick(&[100, 60])});
+        let taus = [0i64, 0, 20, 20, 40, 200, -10, 1];
+        let texts: Vec<String> = (0..nlines)
+            .map(|_| {
+                let unin = rng.chance(1, 2);
+                let bad = |rng: &mut Rng, p: u64| if rng.chance(p, 100) { "bad" } else { "num" };
+                let ln = json!({
+                    "tc": if rng.chance(5, 100) { "bad" } else { "ok" }, "tau": *rng.pick(&taus),
+                    "blc": if rng.chance(8, 100) { "nan" } else if rng.chance(6, 100) { "bad" } else { "num" },
+                    "bl": if unin { *rng.pick(&[500, 250, 400]) } else { *rng.pick(&[-100, -50, -200, 500]) },
+                    "nf": *rng.pick(&[8, 8, 8, 7, 6, 4, 2]),
+                    "sigc": bad(&mut rng, 8), "sig": *rng.pick(&[4, 3, -1]),
+                    "bankc": bad(&mut rng, 8), "bank": *rng.pick(&[1, 2, 3]),
+                    "custc": bad(&mut rng, 8), "custom": *rng.pick(&[0, 2]),
+                    "volc": bad(&mut rng, 8), "vol": *rng.pick(&[100, 50]),
+                    "unin": unin, "flagc": bad(&mut rng, 8), "flags": *rng.pick(&[0, 1, 8]),
+                });
+                spell_line(&ln, &tm, &mut rng)
+            })
+            .collect();
+        let head = header(&g, &mut rng);
+        let r = guarded(&format!("timing c06 run {run}"), || {
+            let mut st = TimingPointsState::create(14);
+            for gl in general_lines(&g) {
+                let _ = TimingPoints::parse_general(&mut st, &gl);
+            }
+            let verdicts: Vec<bool> = texts.iter().map(|t| TimingPoints::parse_timing_points(&mut st, t).is_ok()).collect();
+            let file = |keep: &dyn Fn(usize) -> bool| {
+                let mut f = head.clone();
+                for (i, t) in texts.iter().enumerate() {
+                    if keep(i) {
+                        f.push_str(t);
+                        f.push('\n');
+                    }
+                }
+                f
+            };
+            let a = rosu_map::from_str::<TimingPoints>(&file(&|_| true));
+            let b = rosu_map::from_str::<TimingPoints>(&file(&|i| verdicts[i]));
+            (verdicts, matches!((&a, &b), (Ok(x), Ok(y)) if x == y), file(&|_| true))
+        });
+        s.cases += 1;
+        s.checks += 1;
+        match r {
+            Err(p) => s.mismatch("panic", json!({"run": run, "panic": p})),
+            Ok((verdicts, same, file)) => {
+                if verdicts.iter().any(|v| !*v) {
+                    s.nontrivial_key(&format!("run{run}"));
+                }
+                if !same {
+                    s.mismatch("decode(file)!=decode(file-minus-rejected)", json!({"file": file, "verdicts": verdicts}));
+                }
+            }
+        }
+    }
+    s.sample(json!({"runs": runs, "lines_per_run": nlines}));
+}
